@@ -822,7 +822,7 @@ def equal_hash_words(g, n_pairs):
     g.stats['_equal_hash_pairs'] = len(pairs)
 
 
-def pool_rollover(g, n_words):
+def pool_rollover(g, n_words, first='identifier_w', again_ops=('identifier_w', 'linkage_w')):
     """More distinct spellings than one string pool holds (1 MiB = 65536 header slots), then every one of them requested again
     in another order: the word that happens to open a new pool, and its neighbours, must still be the Identifier of their spelling."""
     rng = g.rng
@@ -832,12 +832,12 @@ def pool_rollover(g, n_words):
         if w not in seen:
             seen.add(w); ws.append(w)
     for w in ws:
-        g.emit('identifier_w', [w], False)
+        g.emit(first, [w], False)
     again = list(ws)
     rng.shuffle(again)
     for k, w in enumerate(again):
-        g.emit('identifier_w' if k % 3 else 'linkage_w', [w], False)
-        if k % 3 == 0: g.emit('identifier_w', [w], False)
+        g.emit(again_ops[0] if k % 3 else again_ops[1], [w], False)
+        if k % 3 == 0: g.emit(again_ops[0], [w], False)
     g.stats['_pool_rollover_words'] = len(ws)
 
 
@@ -1103,6 +1103,13 @@ def lookalike_operand_sweep(g, rounds):
         xl = [g.emit('fresh', [4]) for _ in range(3)]
         e = P('expr')
         asked += [('template_id', [e, x]) for x in xl]
+        # expressions that stand for "nothing here" (phantoms: never unified, each its own node) as the bound of an array, the exception
+        # specification of a function, the operand of an as-type, with everything else equal
+        ph = [g.emit('fresh', [6]) for _ in range(3)]
+        t, pr = P('type'), P('product')
+        for x in ph + xl:
+            asked += [('array', [t, x]), ('as_type_expr', [x])]
+            if pr is not None and 'function_e' in g.WEIGHTS[g.profile]: asked.append(('function_e', [pr, t, x]))
         for op, a in asked: g.emit(op, a)
         rng.shuffle(asked)
         for op, a in asked: g.emit(op, a, False)
@@ -1169,6 +1176,10 @@ def build_histories(pid, tier, seed, words, builtins):
             equal_hash_words(g, 12 if tier == 'quick' else 200)
         if pid == 'C04' and i == 1:
             pool_rollover(g, 42000 if tier == 'quick' else 130000)
+        if pid == 'C01' and i == 3:
+            # the same at the scale of calling-convention / linkage spellings (the arguments of transfers)
+            g.prologue()
+            pool_rollover(g, 42000 if tier == 'quick' else 130000, first='calling_convention', again_ops=('calling_convention', 'linkage_w'))
         if pid == 'C11' and i == 0:
             g.prologue()
             # one operand of every unqualified kind
